@@ -24,7 +24,7 @@ BUDGET = {
     # prop: (quick runs, thorough runs)
     "C01": (5000, 100000), "C02": (5000, 100000), "C03": (4000, 80000), "C04": (4000, 80000),
     "C05": (5000, 100000), "C06": (2400, 40000), "C07": (4000, 60000), "C08": (2000, 30000),
-    "C09": (240, 3000), "C10": (3000, 50000), "C11": (6000, 100000), "C16": (600, 8000),
+    "C09": (240, 3000), "C10": (3000, 50000), "C11": (6000, 100000), "C16": (4000, 60000),
     "C17": (160, 1600), "C18": (4000, 60000), "C19": (3000, 50000),
 }
 
@@ -59,12 +59,16 @@ def worker_main(argv):
     from . import minimise, sim
 
     xgi = sim.import_xgi()
+    sim.install_watchdog()
     ncls = len(HASHSEEDS)
     out = open(outfile, "w")
     t0 = time.time()
+    nviol = 0
     for index in range(nruns):
         if index % ncls != cls or (index // ncls) % nslots != slot:
             continue
+        if nviol >= 3:
+            break  # three minimised violations per worker are enough to report
         try:
             res, s = one_run(prop, tier, verif_seed, index, xgi)
         except Exception as ex:  # harness error, reported apart from violations
@@ -83,9 +87,11 @@ def worker_main(argv):
         if index < 2 * ncls * nslots and len(s.ops) > 0:
             line["sample_ops"] = s.ops[:12]
         if res["verdict"] == "violation":
+            nviol += 1
             fp = res["violation"]["fingerprint"]
             try:
-                ops, tests = minimise.ddmin(prop, res["cfg"], s.ops, fp, xgi, s.hooks)
+                ops, tests = minimise.ddmin(prop, res["cfg"], s.ops, fp, xgi, s.hooks,
+                                            budget=400 if nviol == 1 else 60)
             except Exception:
                 ops, tests = s.ops, -1
             replay = {
@@ -103,7 +109,7 @@ def worker_main(argv):
             line["violation"] = res["violation"]
         out.write(json.dumps(line) + "\n")
         out.flush()
-    out.write(json.dumps({"done": True, "wall": time.time() - t0}) + "\n")
+    out.write(json.dumps({"done": True, "wall": time.time() - t0, "stopped_early": nviol >= 3}) + "\n")
     out.close()
 
 
@@ -121,6 +127,7 @@ def replay_main(path, quiet=False):
     from . import minimise, sim
 
     xgi = sim.import_xgi()
+    sim.install_watchdog()
     res = minimise.replay_ops(rp["property"], rp["cfg"], rp["ops"], xgi, hooks_for(rp["property"]))
     v = res.get("violation")
     if v is not None and v["fingerprint"] == rp["fingerprint"]:
